@@ -69,7 +69,9 @@ def _check_path(path):
 def _norm_path(working_dir, path):
     path = fspath(path)
     if os.path.isabs(path):
-        return path
+        # Bring absolute paths into normal form too, like relative ones below:
+        # "/d/./x" and "/d/sub/../x" name the file "/d/x".
+        return os.path.normpath(path)
     return os.path.abspath(os.path.join(working_dir, path))
 
 
